@@ -13,7 +13,7 @@ THEOREMS = [(M, "NQ.C13." + n) for n in [
     "double_init_rejected", "alloc_fresh",
     "inv_tick", "tick_subs_app", "tick_isolation", "schedule_isolation", "inv_istep", "reachable_interleaved",
     "isolation_interleaved", "abort_state", "inv_abort", "inv_abortMid", "qfree_atomic", "reachable_with_aborts",
-    "executors_independent", "inv_mapply"]] + [("NetqasmVerif.Props.C13Controller", "NQ.C13." + n) for n in [
+    "executors_independent", "inv_mapply", "keepResp_parked_unchanged", "inv_keepResp_fresh"]] + [("NetqasmVerif.Props.C13Controller", "NQ.C13." + n) for n in [
     "inv_controller_action", "reachable_controller", "reachable_controller_from_init", "controller_raise_stops",
     "controller_consume_isolation"]]
 TRANSLATORS = []
@@ -52,8 +52,9 @@ ASSUMPTIONS = [
     "are compared with the model only up to the violating response",
     "SharedMemoryManager keys of this node are created/removed only by this executor",
     "one executor per node name",
-    "pending-list histories: the physical qubit of a keep response is taken from this executor's pool "
-    "(_get_unused_physical_qubit) when the link layer delivers; subroutines of one application are switched "
+    "pending-list histories: the physical qubit of a keep response is either taken from this executor's pool "
+    "(_get_unused_physical_qubit) when the link layer delivers, or (no pre-reservation) any id >= 50 that is "
+    "unused and not carried by a parked response at delivery time; subroutines of one application are switched "
     "only at the executor's own yield points (as in the C12 stream)",
 ]
 
@@ -113,8 +114,9 @@ def run(ctx):
                 "(a suspended subroutine dropped between instructions or at the yield inside qfree's reset hook, "
                 "the hook raising once, then stop/re-register/allocate all); 2-3 executors in one process; histories with "
                 "entanglement deliveries through the pending-response list (request/response scenarios of the C12 "
-                "stream with random schedules over {instruction, deliver, poll}, the link layer reserving each kept "
-                "qubit; directed: a response parked ahead of handleable ones, a request whose subroutine ended); non-trivial = at least one qubit was "
+                "stream with random schedules over {instruction, deliver, poll}; half with the link layer reserving each "
+                "kept qubit from the executor's pool, half without pre-reservation (any id unused at delivery time, used "
+                "must equal mapped exactly, parked responses mark nothing; also across stop + re-registration); directed: a response parked ahead of handleable ones, a request whose subroutine ended); non-trivial = at least one qubit was "
                 "mapped at some point; distinct by history JSON")
     rng = ctx.rng
     drv = ctx.driver
@@ -252,14 +254,14 @@ def run(ctx):
     from harness import epr as E
     E.quiet()
 
-    def check_pending(sc, toks, tag):
-        rp, dc = P.run_case(sc, toks, drv)
+    def check_pending(sc, toks, tag, reserve=True):
+        rp, dc = P.run_case(sc, toks, drv, reserve=reserve)
         res.evaluations += 1
-        res.count("mode:pending-list")
+        res.count("mode:pending-list" + ("" if reserve else ":no-pre-reservation"))
         for st in rp.steps:
             res.count("ptok:" + st["tok"][0] + (":raised" if "raised" in st else ""))
         if any(u for u in rp.ex._qubit_unit_modules.values() if any(p is not None for p in u)) or rp.delivered:
-            res.nontrivial.add(json.dumps([sc.desc(), toks], sort_keys=True, default=str))
+            res.nontrivial.add(json.dumps([sc.desc(), toks, reserve], sort_keys=True, default=str))
         if dc is not None and len(res.disagreements) < 40:
             res.disagreements.append({"stream": "ctl." + tag, "input": {"scenario": sc.desc(), "schedule": toks},
                                       "model": json.loads(json.dumps(dc.get("model", dc), default=str)),
@@ -268,27 +270,33 @@ def run(ctx):
         if rp.c13:
             v = rp.c13[0]
             desc = json.loads(json.dumps(sc.desc(), default=str))
-            small = P.shrink_schedule(desc, [list(t) for t in toks], v["what"])
-            rp2 = P.PoolReplayer(E.Scenario.from_desc(json.loads(json.dumps(desc))), E.new_executor())
+            small = P.shrink_schedule(desc, [list(t) for t in toks], v["what"], reserve)
+            rp2 = P.PoolReplayer(E.Scenario.from_desc(json.loads(json.dumps(desc))), E.new_executor(), reserve=reserve)
             for t in small:
                 rp2.step(tuple(t))
                 if rp2.stopped:
                     break
             v2 = ([x for x in rp2.c13 if x["what"] == v["what"]] or [v])[0]
             res.failures.append({"what": v["what"], "kf": None, "input": {
-                "scenario": desc, "programs": [sp.text().split("\n")[2:] for sp in sc.subs], "schedule": small,
+                "scenario": desc, "link_layer_pre_reserves": reserve, "programs": [sp.text().split("\n")[2:] for sp in sc.subs], "schedule": small,
                 "detail": json.loads(json.dumps(v2, default=str))}})
 
+    for reserve in (True, False):
+        # False: no pre-reservation (stub network stack) - the physical id is any id unused at delivery
+        # time; a parked response must not be marked, used == mapped exactly at every step
+        for pairs, other in ((1, True), (2, False), (2, True)):
+            check_pending(*P.parked_then_stop_scenario(pairs, other), tag="pending-corpus", reserve=reserve)
+        check_pending(*P.blocked_head_scenario(2, "busy"), tag="pending-corpus", reserve=reserve)
     for number in (2, 3):
         for blocked in ("norecv", "busy"):
             check_pending(*P.blocked_head_scenario(number, blocked), tag="pending-corpus")
     for pairs, vq, early in [(p_, v_, False) for p_ in (1, 2) for v_ in (0, 1, 2)] + [(1, 1, True), (2, 2, True)]:
         check_pending(*P.stale_request_scenario(pairs, vq, early), tag="pending-corpus")
-    n_pend = 2500 if ctx.thorough else 220
+    n_pend = 2500 if ctx.thorough else 180
     for k in range(n_pend):
         sc = E.gen_scenario(rng, mixed_roles=(k % 3 == 0))
         toks = E.random_schedule(sc, rng, early=rng.choice([0, 0, 1, 2]))
-        check_pending(sc, toks, "pending-random")
+        check_pending(sc, toks, "pending-random", reserve=(k % 2 == 0))
         if len(res.failures) >= 5:
             return res
 
